@@ -74,6 +74,9 @@ func assertRI(e *env.Env, id uint64, label string) {
 			okType := (b.Type == types.BidTypeBatchWorth && b.Coin.Denom == a.GetPayingCoinDenom()) || (b.Type == types.BidTypeBatchMany && b.Coin.Denom == a.GetSellingCoin().Denom)
 			nd.Assert(label+".R6.batch-bid-type-and-denom", okType)
 			nd.Assert(label+".R6.batch-bid-price-at-least-minimum", b.Price.GTE(ba.MinBidPrice))
+			if status == types.AuctionStatusStarted && len(a.GetEndTimes()) == 1 {
+				nd.Assert(label+".R6.no-flag-before-first-end-time", !b.IsMatched)
+			}
 		} else {
 			nd.Assert(label+".R6.fixed-bid", b.Type == types.BidTypeFixedPrice && (b.Coin.Denom == a.GetPayingCoinDenom() || b.Coin.Denom == a.GetSellingCoin().Denom) && nd.And(b.Price.Equal(a.GetStartPrice()), b.IsMatched))
 		}
